@@ -3,6 +3,7 @@
 package main
 
 import (
+	"go/types"
 	"flag"
 	"fmt"
 	"os"
@@ -66,6 +67,28 @@ func main() {
 		}
 		p := loadProgram(*repo, overlay)
 		if *dump != "" {
+			if *dump == "guardtypes" {
+				for k, want := range guardedFieldTypes {
+					parts := strings.Split(k, ".")
+					named := p.NamedType(parts[0], parts[1])
+					got := "?"
+					if named != nil {
+						if st, ok := named.Underlying().(*types.Struct); ok {
+							for i := 0; i < st.NumFields(); i++ {
+								if st.Field(i).Name() == parts[2] {
+									got = typeStr(st.Field(i).Type())
+								}
+							}
+						}
+					}
+					status := "ok"
+					if got != want {
+						status = "MISMATCH"
+					}
+					fmt.Printf("%-45s %-30s %-30s %s\n", k, want, got, status)
+				}
+				return
+			}
 			if strings.HasPrefix(*dump, "table:") {
 				dumpTables(p, strings.TrimPrefix(*dump, "table:"))
 				return
